@@ -143,6 +143,106 @@ theorem otsuTrace_sub (cast : Nat → α) (h nB nO : Nat → Nat) (Ts : List Nat
 
 end generic
 
+theorem otsuGen_eq_gen {α : Type} [Add α] [Sub α] [Mul α] [Div α] [LT α] [DecidableLT α]
+    (cast : Nat → α) (hist : List Nat) : otsuGen cast hist =
+    if hist.length ≤ 1 then 0 else if sumL (hist.drop 1) = 0 then 0 else
+      otsuLoop cast (hOf hist) (nBOf hist) (nOOf hist) (List.range' 1 (hist.length - 1))
+        (cast 0) (cast (sumL (weighted hist)) / cast (sumL (hist.drop 1)))
+        (cast (nBOf hist 0) * cast (nOOf hist 0) *
+          (cast 0 - cast (sumL (weighted hist)) / cast (sumL (hist.drop 1))) *
+          (cast 0 - cast (sumL (weighted hist)) / cast (sumL (hist.drop 1)))) 0 := rfl
+
+/-! ## 2. exact instance: every `sigma_between` of the loop is the between-class variance -/
+
+/-- the trace of the whole function: levels `1 … n−1`, initial means `0` and `Σ i·h[i] / Σ_{i≥1} h[i]` -/
+def otsuTraceOf {α : Type} [Add α] [Sub α] [Mul α] [Div α] (cast : Nat → α) (hist : List Nat) :
+    List (Nat × α) :=
+  otsuTrace cast (hOf hist) (nBOf hist) (nOOf hist) (List.range' 1 (hist.length - 1))
+    (cast 0) (cast (sumL (weighted hist)) / cast (sumL (hist.drop 1)))
+
+theorem otsuTrace_rat (hist : List Nat) (k : Nat) :
+    ∀ (T : Nat) (muB muO : ℚ), 1 ≤ T → T + k = hist.length →
+      muB * (nBOf hist (T - 1) : ℚ) = (sBOf hist (T - 1) : ℚ) →
+      muO * (nOOf hist (T - 1) : ℚ) =
+        (sBOf hist (hist.length - 1) : ℚ) - (sBOf hist (T - 1) : ℚ) →
+      ∀ p ∈ otsuTrace ratCast (hOf hist) (nBOf hist) (nOOf hist) (List.range' T k) muB muO,
+        p.2 = otsuSigma hist p.1 := by
+  induction k with
+  | zero => intro T muB muO _ _ _ _ p hp; simp [otsuTrace] at hp
+  | succ k ih =>
+    intro T muB muO hT hTk hmuB hmuO p hp
+    have hTn : T < hist.length := by omega
+    have eT : T - 1 + 1 = T := by omega
+    rw [List.range'_succ] at hp
+    by_cases h1 : nBOf hist T = 0
+    · simp only [otsuTrace, if_pos h1] at hp
+      have h0 : nBOf hist (T - 1) = 0 := by
+        have := nB_mono hist (Nat.sub_le T 1) hTn
+        omega
+      have hs1 := sB_eq_zero_of_nB hist hTn h1
+      have hs0 := sB_eq_zero_of_nB hist (by omega) h0
+      refine ih (T + 1) muB muO (by omega) (by omega) ?_ ?_ p hp
+      · rw [Nat.add_sub_cancel, h1, hs1]; simp
+      · rw [Nat.add_sub_cancel]
+        have : nOOf hist T = nOOf hist (T - 1) := by unfold nOOf; rw [h1, h0]
+        rw [this, hs1]
+        rw [hs0] at hmuO
+        exact hmuO
+    · by_cases h2 : nOOf hist T = 0
+      · simp [otsuTrace, if_neg h1, if_pos h2] at hp
+      · simp only [otsuTrace, if_neg h1, if_neg h2, ratCast] at hp
+        have c1 : (nBOf hist T : ℚ) ≠ 0 := Nat.cast_ne_zero.2 h1
+        have c2 : (nOOf hist T : ℚ) ≠ 0 := Nat.cast_ne_zero.2 h2
+        have rs : sBOf hist T = sBOf hist (T - 1) + T * hOf hist T := by
+          have := sB_succ hist (T - 1) (by omega)
+          rwa [eT] at this
+        have hB : (muB * (nBOf hist (T - 1) : ℚ) + ((T * hOf hist T : ℕ) : ℚ)) / (nBOf hist T : ℚ) *
+            (nBOf hist T : ℚ) = (sBOf hist T : ℚ) := by
+          rw [div_mul_cancel₀ _ c1, hmuB, rs, Nat.cast_add]
+        have hO : (muO * (nOOf hist (T - 1) : ℚ) - ((T * hOf hist T : ℕ) : ℚ)) / (nOOf hist T : ℚ) *
+            (nOOf hist T : ℚ) = (sBOf hist (hist.length - 1) : ℚ) - (sBOf hist T : ℚ) := by
+          rw [div_mul_cancel₀ _ c2, hmuO, rs, Nat.cast_add]
+          ring
+        rcases List.mem_cons.1 hp with rfl | hp
+        · exact sigma_step hist hTn h1 h2 hB hO
+        · refine ih (T + 1) _ _ (by omega) (by omega) ?_ ?_ p hp
+          · rw [Nat.add_sub_cancel]; exact hB
+          · rw [Nat.add_sub_cancel]; exact hO
+
+/-- **σ computed by the loop = the between-class variance, at every step.**  For a histogram with at
+    least two bins and a pixel above level 0 (otherwise the function returns 0 before the loop):
+    for EVERY arithmetic the result is "first strict maximum of the trace, starting from the value at
+    `T = 0`"; over the exact rationals the starting value is `σ(0)`, every trace entry `(T, s)` has
+    `s = σ(T)`, and the trace visits every level with both classes occupied. -/
+theorem otsu_sigma_stepwise (hist : List Nat) (hn : 2 ≤ hist.length) (hH : sumL (hist.drop 1) ≠ 0) :
+    (∀ {α : Type} [Add α] [Sub α] [Mul α] [Div α] [LT α] [DecidableLT α] (cast : Nat → α),
+      otsuGen cast hist = otsuPick (otsuTraceOf cast hist)
+        (cast (nBOf hist 0) * cast (nOOf hist 0) *
+          (cast 0 - cast (sumL (weighted hist)) / cast (sumL (hist.drop 1))) *
+          (cast 0 - cast (sumL (weighted hist)) / cast (sumL (hist.drop 1)))) 0) ∧
+    ratCast (nBOf hist 0) * ratCast (nOOf hist 0) *
+          (ratCast 0 - ratCast (sumL (weighted hist)) / ratCast (sumL (hist.drop 1))) *
+          (ratCast 0 - ratCast (sumL (weighted hist)) / ratCast (sumL (hist.drop 1))) = otsuSigma hist 0 ∧
+    (∀ p ∈ otsuTraceOf ratCast hist, p.2 = otsuSigma hist p.1) ∧
+    (∀ T, 1 ≤ T → T < hist.length → nBOf hist T ≠ 0 → nOOf hist T ≠ 0 →
+      ∃ s, (T, s) ∈ otsuTraceOf ratCast hist) := by
+  have hH' : nOOf hist 0 ≠ 0 := by rw [← sumL_drop hist hn]; exact hH
+  have c2 : (nOOf hist 0 : ℚ) ≠ 0 := Nat.cast_ne_zero.2 hH'
+  refine ⟨?_, ?_, ?_, ?_⟩
+  · intro α _ _ _ _ _ _ cast
+    rw [otsuGen_eq_gen, if_neg (by omega), if_neg hH, otsuLoop_eq_pick]
+    rfl
+  · rw [sumL_drop hist hn, sumL_weighted]
+    simp only [ratCast, Nat.cast_zero]
+    exact sigma_zero hist (by omega) hH'
+  · intro p hp
+    unfold otsuTraceOf at hp
+    rw [sumL_drop hist hn, sumL_weighted] at hp
+    exact otsuTrace_rat hist (hist.length - 1) 1 _ _ (le_refl 1) (by omega)
+      (by simp [ratCast, sB_zero]) (by simp [ratCast, sB_zero, div_mul_cancel₀ _ c2]) p hp
+  · intro T h1T hT h1 h2
+    exact otsuTrace_mem _ hist (hist.length - 1) 1 _ _ (by omega) T h1T hT h1 h2
+
 /-! ## 4. the decision made on approximate values is nearly optimal -/
 
 /-- **Abstract decision lemma.** If the initial `best` is within `B` of `σ(0)`, every trace entry
@@ -196,8 +296,8 @@ def rdCast (n : Nat) : Rd rnd := rnd (n : ℚ)
 def Rd.val (a : Rd rnd) : ℚ := a
 end rd
 
-/-- unit roundoff of binary64 -/
-def u53 : ℚ := 1 / 2 ^ 53
+-- `u53 = 2^-53`, `etaMax`, `sigBound`, `otsuErrBound`, `otsuMargin` are defined in `Model/C16.lean`
+theorem u53_eq : u53 = 1 / 2 ^ 53 := by unfold u53; norm_num
 
 theorem u53_pos : 0 < u53 := by unfold u53; positivity
 
@@ -207,8 +307,7 @@ include hr
 
 theorem rnd_rel' (x : ℚ) : |rnd x - x| ≤ u53 * |x| := by
   have := hr.rel x
-  unfold u53
-  rw [one_div, inv_mul_eq_div]
+  rw [u53_eq, one_div, inv_mul_eq_div]
   exact this
 
 /-- rounding a quantity known within `E` of `y` -/
@@ -277,12 +376,6 @@ theorem chain_step (m a b w s s' F E : ℚ) (hb : 0 < b) (hs : 0 ≤ s) (hsF : s
     `|mO·b − sO| ≤ E` (`a, b ≥ 1` the class counts, `a + b = N`, `a·b ≤ W`, the product `a·b` exact),
     and the exact means at most `Δ` apart, the value `((a·b) ⊗ d̂) ⊗ d̂`, `d̂ = mB ⊖ mO`, is within
     an explicit bound of `a·b·(sB/a − sO/b)²`. -/
-def etaMax (Δ E : ℚ) : ℚ := (1 + u53) * (2 * E) + u53 * Δ
-
-def sigBound (N W Δ E : ℚ) : ℚ :=
-  ((1 + u53) * (E * N) + u53 * (W * Δ)) * (2 * Δ + etaMax Δ E) +
-    (2 * u53 + u53 * u53) * (W * ((Δ + etaMax Δ E) * (Δ + etaMax Δ E)))
-
 theorem sigma_err (mB mO a b sB sO N W Δ E : ℚ) (ha : 1 ≤ a) (hb : 1 ≤ b) (hN : a + b = N)
     (hW : a * b ≤ W) (hE0 : 0 ≤ E)
     (hB : |mB * a - sB| ≤ E) (hO : |mO * b - sO| ≤ E) (hΔ : |sB / a - sO / b| ≤ Δ) :
@@ -552,17 +645,8 @@ end loop
 
 /-! ## 5. the whole function in rounded arithmetic -/
 
-theorem otsuGen_eq_gen {α : Type} [Add α] [Sub α] [Mul α] [Div α] [LT α] [DecidableLT α]
-    (cast : Nat → α) (hist : List Nat) : otsuGen cast hist =
-    if hist.length ≤ 1 then 0 else if sumL (hist.drop 1) = 0 then 0 else
-      otsuLoop cast (hOf hist) (nBOf hist) (nOOf hist) (List.range' 1 (hist.length - 1))
-        (cast 0) (cast (sumL (weighted hist)) / cast (sumL (hist.drop 1)))
-        (cast (nBOf hist 0) * cast (nOOf hist 0) *
-          (cast 0 - cast (sumL (weighted hist)) / cast (sumL (hist.drop 1))) *
-          (cast 0 - cast (sumL (weighted hist)) / cast (sumL (hist.drop 1)))) 0 := rfl
-
 /-- three roundings turn `u·F·c` into at most `u·F·(c+4)` as long as `c·u ≤ 1/8` -/
-theorem g3_step (F c : ℚ) (hF : 0 ≤ F) (hc : 0 ≤ c) (hcu : c * u53 ≤ 1 / 8) :
+theorem g3_step (F c : ℚ) (hF : 0 ≤ F) (_hc : 0 ≤ c) (hcu : c * u53 ≤ 1 / 8) :
     g3 F (u53 * F * c) ≤ u53 * F * (c + 4) := by
   have ht := u53_pos
   have ht16 : u53 ≤ 1 / 16 := by unfold u53; norm_num
@@ -609,14 +693,6 @@ theorem means_apart (hist : List Nat) (hne : ∃ v ∈ hist, v ≠ 0) {T : Nat} 
     rw [div_le_iff₀ pO]; exact_mod_cast b4
   rw [Nat.cast_sub (show loOf hist ≤ lastNonzero hist by omega), abs_le]
   constructor <;> linarith
-
-/-- the explicit error bound for `σ̂(T)`: `N` pixels, first moment `Fn = Σ i·h[i]`, occupied levels
-    `lo … hi`.  With `u = 2^-53`, `Δ = hi − lo`, `E = u·Fn·(1 + 4Δ)`:
-    `((1+u)·E·N + u·N²·Δ)·(2Δ + η) + (2u+u²)·N²·(Δ+η)²`, `η = 2(1+u)E + uΔ`
-    (leading term `8u·Δ²·Fn·N`). -/
-def otsuErrBound (N Fn lo hi : ℕ) : ℚ :=
-  sigBound (N : ℚ) ((N : ℚ) * (N : ℚ)) ((hi - lo : ℕ) : ℚ)
-    (u53 * (Fn : ℚ) * (1 + 4 * ((hi - lo : ℕ) : ℚ)))
 
 theorem sigBound_nonneg {N W Δ E : ℚ} (hN : 0 ≤ N) (hW : 0 ≤ W) (hΔ : 0 ≤ Δ) (hE : 0 ≤ E) :
     0 ≤ sigBound N W Δ E := by
@@ -815,5 +891,93 @@ theorem otsuGen_rd_near_optimal {rnd : ℚ → ℚ} (hr : Rounding rnd) (hist : 
             · exact Or.inr (Or.inr (otsuTrace_mem _ hist (hist.length - 1) 1 _ _ (by omega) T'
                 (by omega) hT' h1 h2)))
       T hT
+
+/-! ## 6. what the check compares: `smax − sgot ≤ margin` -/
+
+/-- the answer of `otsuPick` is the initial level or a level of the list -/
+theorem otsuPick_mem {α : Type} [LT α] [DecidableLT α] (l : List (Nat × α)) :
+    ∀ (best : α) (bestT : Nat), otsuPick l best bestT = bestT ∨ ∃ s, (otsuPick l best bestT, s) ∈ l := by
+  induction l with
+  | nil => intro best bestT; exact Or.inl rfl
+  | cons p rest ih =>
+    intro best bestT
+    obtain ⟨T, s⟩ := p
+    by_cases hb : best < s
+    · simp only [otsuPick, if_pos hb]
+      rcases ih s T with h | ⟨s', hs'⟩
+      · right; exact ⟨s, by rw [h]; exact List.mem_cons_self⟩
+      · right; exact ⟨s', List.mem_cons_of_mem _ hs'⟩
+    · simp only [otsuPick, if_neg hb]
+      rcases ih best bestT with h | ⟨s', hs'⟩
+      · left; exact h
+      · right; exact ⟨s', List.mem_cons_of_mem _ hs'⟩
+
+/-- whatever the arithmetic, `otsu` returns a level of the histogram (or 0) -/
+theorem otsuGen_lt {α : Type} [Add α] [Sub α] [Mul α] [Div α] [LT α] [DecidableLT α]
+    (cast : Nat → α) (hist : List Nat) : otsuGen cast hist < hist.length ∨ otsuGen cast hist = 0 := by
+  rw [otsuGen_eq_gen]
+  split_ifs with hn hH
+  · exact Or.inr rfl
+  · exact Or.inr rfl
+  · rw [otsuLoop_eq_pick]
+    rcases otsuPick_mem (otsuTrace cast (hOf hist) (nBOf hist) (nOOf hist)
+      (List.range' 1 (hist.length - 1)) _ _) _ 0 with h | ⟨s, hs⟩
+    · exact Or.inr h
+    · have := (otsuTrace_sub cast _ _ _ _ _ _ _ hs).1
+      simp only [List.mem_range'_1] at this
+      left; omega
+
+/-- `sigmaAll[T]` as the driver reads it -/
+theorem sigmaAll_getD (hist : List Nat) {T : Nat} (hT : T < hist.length) (d : ℚ) :
+    (sigmaAll hist).getD T d = otsuSigma hist T := by
+  rw [List.getD_eq_getElem?_getD, sigmaAll_getElem? hist T hT]; rfl
+
+/-- the maximum the driver prints is the exact `σ` at the exact model's threshold -/
+theorem listMax_sigmaAll (hist : List Nat) (hn : 0 < hist.length) :
+    listMax (sigmaAll hist) = otsuSigma hist (otsuGen ratCast hist) := by
+  obtain ⟨h1, h2, _⟩ := otsuGen_first_argmax' hist
+  have hTs : otsuGen ratCast hist < hist.length := by
+    rcases h1 with h | h
+    · exact h
+    · rw [h]; exact hn
+  have hget : ∀ T (h : T < (sigmaAll hist).length), (sigmaAll hist)[T] = otsuSigma hist T := by
+    intro T h
+    rw [List.getElem_eq_iff]
+    exact sigmaAll_getElem? _ T (by rwa [sigmaAll_length] at h)
+  have hTs' : otsuGen ratCast hist < (sigmaAll hist).length := by rw [sigmaAll_length]; exact hTs
+  rw [listMax_eq _ _ hTs' (by rw [hget]; exact otsuSigma_nonneg _ _)
+    (fun T h => by rw [hget, hget]; exact h2 T (by rwa [sigmaAll_length] at h)), hget]
+
+theorem otsuMargin_eq (hist : List Nat) : otsuMargin hist =
+    2 * otsuErrBound (nBOf hist (hist.length - 1)) (sBOf hist (hist.length - 1))
+      (loOf hist) (lastNonzero hist) := rfl
+
+/-- **The guarded comparison of the check is sound.**  `smax − sgot ∈ [0, otsuMargin hist]` whenever
+    `got` is the threshold computed in rounded arithmetic. -/
+theorem otsu_margin_sound {rnd : ℚ → ℚ} (hr : Rounding rnd) (hist : List Nat)
+    (hne : ∃ v ∈ hist, v ≠ 0) (hlen : hist.length ≤ 2 ^ 32)
+    (hNN : nBOf hist (hist.length - 1) * nBOf hist (hist.length - 1) ≤ 2 ^ 53)
+    (hFF : sBOf hist (hist.length - 1) ≤ 2 ^ 53) :
+    otsuGen (α := Rd rnd) (rdCast rnd) hist < hist.length ∧
+    0 ≤ listMax (sigmaAll hist) - (sigmaAll hist).getD (otsuGen (α := Rd rnd) (rdCast rnd) hist) (-1) ∧
+    listMax (sigmaAll hist) - (sigmaAll hist).getD (otsuGen (α := Rd rnd) (rdCast rnd) hist) (-1) ≤
+      otsuMargin hist := by
+  have hn : 0 < hist.length := by
+    obtain ⟨v, hv, _⟩ := hne
+    exact List.length_pos_of_mem hv
+  have hlt : otsuGen (α := Rd rnd) (rdCast rnd) hist < hist.length := by
+    rcases otsuGen_lt (α := Rd rnd) (rdCast rnd) hist with h | h
+    · exact h
+    · rw [h]; exact hn
+  have hTs : otsuGen ratCast hist < hist.length := by
+    rcases (otsuGen_first_argmax' hist).1 with h | h
+    · exact h
+    · rw [h]; exact hn
+  rw [sigmaAll_getD hist hlt, listMax_sigmaAll hist hn, otsuMargin_eq]
+  refine ⟨hlt, ?_, ?_⟩
+  · have := (otsuGen_first_argmax' hist).2.1 _ hlt
+    linarith
+  · have := otsuGen_rd_near_optimal hr hist hne hlen hNN hFF _ hTs
+    linarith
 
 end Mahotas.C16
